@@ -360,6 +360,10 @@ def check(ctx: Ctx):
         "the same field of `out` (out aliases operand 1 in-place); SIBLING/EFFECT on DropletBase.merge; FORMULA: the "
         "converters used are exact mutual inverses per dimension (shared with C12)."
     )
+    from ..rules import support as _sup_r11
+
+    _sup_r11.check_flag_tests(ctx, ("droplets.droplets.DropletBase.merge",))
+    ctx.expect("FLAGTEST", 1)
     check_kernel_spherical(ctx)
     check_kernel_diffuse(ctx)
     check_merge_dispatch(ctx)
